@@ -164,6 +164,12 @@ def _worker_run(args):
 
 def _job_main(modname, job, conn):
     try:
+        os.setpgid(0, 0)              # own process group: the per-job budget kills the job together with the children it forked
+        import ctypes
+        ctypes.CDLL(None).prctl(1, 9)   # PR_SET_PDEATHSIG: do not outlive the runner
+    except Exception:
+        pass
+    try:
         _worker_init(job.get("curve"), modname)
         r = _worker_run((modname, job))
     except BaseException:
@@ -223,6 +229,8 @@ def run_property(prop, tier, seed, strict=False, nproc=None):
     ctx = mp.get_context("fork")
     pending = sorted(jobs, key=lambda j: -j.get("weight", 1))
     running = {}
+    timed_out = []
+    job_budget = float(os.environ.get("VF_JOB_BUDGET", 900 if tier == "quick" else 6 * 3600))
     from multiprocessing.connection import wait as _wait
     while pending or running:
         while pending and len(running) < nproc:
@@ -231,9 +239,22 @@ def run_property(prop, tier, seed, strict=False, nproc=None):
             pr = ctx.Process(target=_job_main, args=(modname, job, wr), daemon=True)
             pr.start()
             wr.close()
-            running[rd] = (pr, job)
+            running[rd] = (pr, job, time.time())
+        # per-job wall budget: a job that a change to the library makes run away (a loop that no longer ends, an exploration whose
+        # space exploded) is stopped and reported as a cap - never as a pass of what it did not finish, never as a violation
+        for rd in list(running):
+            pr, job, started = running[rd]
+            if time.time() - started > job_budget:
+                running.pop(rd)
+                try:
+                    os.killpg(pr.pid, 9)
+                except Exception:
+                    pr.kill()
+                pr.join()
+                rd.close()
+                timed_out.append(job["name"])
         for rd in _wait(list(running), timeout=5):
-            pr, job = running.pop(rd)
+            pr, job, _started = running.pop(rd)
             try:
                 r = rd.recv()
             except EOFError:
@@ -257,7 +278,7 @@ def run_property(prop, tier, seed, strict=False, nproc=None):
     violations = {}
     samples = []
     layers = {}
-    caps = []
+    caps = [f"{name}: stopped after the per-job wall budget of {job_budget:.0f}s; nothing it explored is reported" for name in timed_out]
     outcomes = 0
     for r in sorted(results, key=lambda r: r["job"]):
         for k in agg:
